@@ -34,6 +34,9 @@ def jobs(tier):
         if not q or (b == "gp_mb"):
             J.append(Job(b, "three_callers", "1,0,1,0", p1, env))
         J.append(Job(b, "two_readers", "2,0,0,0", p1, env))
+        if b == "gp_bp":
+            J.append(Job(b, "bp_fork_handlers", "2,0,0,0", p1, env))
+            J.append(Job(b, "bp_fork_handlers", "1,0,1,0", dict(p1, n=2), env))
         if not q:
             J.append(Job(b, "basic", "3,1,1,0", p1, env, workers=16))
             J.append(Job(b, "basic", "2,1,2,0", p1, env, workers=16))
